@@ -266,7 +266,11 @@ TEXT = {
           "pooled block acknowledges a momentum of the current chain (pool_no_trace), which fails for notify-before-pop and "
           "for a partial drop (two witnesses); the shape of GetPoint / generateProducers / RollbackTo / DeleteMomentum in the "
           "working tree is regenerated from the AST and pinned by theorems; tied to real nodes by the nc- lines of "
-          "sync-batches (complete consensus database, served/recomputed classification, momentums per pillar).",
+          "sync-batches (complete consensus database, served/recomputed classification, momentums per pillar). The listener "
+          "table through which pool and consensus learn about a rollback is exercised by the pool-node stream (model-free): "
+          "listeners registered / unregistered in every order, never-registered and twice-unregistered ones, module Stop() "
+          "without Start(); every registered probe is told the ledger's inserts / deletes once and in order, the pool monitors "
+          "run after every operation.",
   "design_ref": "§3 C06",
   "note": "Observational, not raw, equality (tombstones of created keys remain in the raw frontier — witness example — and "
           "are skipped by every iterator since 522bff7: a regression shows as a listed-but-absent key in the vdb scan monitor "
@@ -335,7 +339,10 @@ TEXT = {
           "encoders, struct-field coverage, protobuf schema, Proto()/DeProto() assignments, the verifier's amount bound and "
           "the re-packing of call data are regenerated from the AST / live types of the tree and compared by theorems; "
           "models tied by a differential stream on pre-image, Serialize(), Deserialize (also on re-arranged wire forms), "
-          "RLP and text-form bytes plus Go-side round-trip and one-field-alteration monitors.",
+          "RLP and text-form bytes plus Go-side round-trip and one-field-alteration monitors; every JSON entry point of "
+          "the tree (nom and rpc/api block, paired block, list, detailed momentum, the hand-written marshal structs, Copy) is "
+          "taken with every field non-zero and compared field by field by reflection, in hash and in serialised bytes, and "
+          "blocks published through the JSON parameter of PublishRawTransaction on a real node are stored byte for byte.",
   "design_ref": "§3 C13",
   "note": "Hash function is a parameter; T2 (stored bytes are a function of covered fields and state) is not a theorem: it is "
           "decided on real nodes by the `variants` stream (every alteration of every field the hash does not cover, for user "
